@@ -85,19 +85,46 @@ def check_scope(ctx: Ctx, case: dict, k: int, r: dict, scope: dict, where: str, 
         ctx.violation("scope", {**case, "where": where}, {"k": k, "diff": diff}, {"family": where, "fields": sorted(diff), **extra_sig})
 
 
-def check_direct(ctx: Ctx, cases: List[dict]) -> None:
+class _Answered:
+    """`ctx` whose `model()` answers from a batch made beforehand (one driver process for all sessions instead of one each)"""
+
+    def __init__(self, ctx: Ctx, answer: Any) -> None:
+        object.__setattr__(self, "_ctx", ctx)
+        object.__setattr__(self, "_answer", answer)
+
+    def model(self, reqs: List[dict]) -> Optional[List[Any]]:
+        return None if self._answer is None else [self._answer]
+
+    def __getattr__(self, name: str) -> Any:
+        return getattr(self._ctx, name)
+
+    def __setattr__(self, name: str, value: Any) -> None:
+        setattr(self._ctx, name, value)
+
+
+def check_direct(ctx: Ctx, all_cases: List[dict]) -> None:
+    for at in range(0, len(all_cases), 250):
+        _check_direct(ctx, all_cases[at:at + 250])
+
+
+def _check_direct(ctx: Ctx, cases: List[dict]) -> None:
+    from ..core import h11drive as H
+    runs = []
     for case in cases:
         rng = random.Random(case["seed"])
         blobs = [HS.request_bytes(r) for r in case["requests"]]
         reads = blobs if case["split"] == "per_request" else HS.split_bytes(rng, b"".join(blobs), case["split"])
         ccfg = case.get("cfg") or {}
-        raw = bool(ccfg.get("h11_pass_raw_headers"))
         cfg = {"keep_alive_max_requests": 1000, **ccfg}
         policy = HS.Policy(rng, reads, case["requests"], case["apps"], eof=True)
-        mops, obs, lib = HS.run_session(cfg, policy)
+        runs.append((case, cfg) + tuple(HS.run_session(cfg, policy)))
+    answers = ctx.model([H.h11_model_req(cfg, mops, lib, HS.SERVER_HEADERS) for _, cfg, mops, _, lib in runs])
+    for n, (case, cfg, mops, obs, lib) in enumerate(runs):
+        ccfg = case.get("cfg") or {}
+        raw = bool(ccfg.get("h11_pass_raw_headers"))
         ctx.evaluations += 1
         ctx.traces_validated += 1
-        HS.compare_with_model(ctx, case, cfg, mops, obs, lib)
+        HS.compare_with_model(_Answered(ctx, None if answers is None else answers[n]), case, cfg, mops, obs, lib)  # type: ignore
         # library fact the theorem `server_name_raw_indep` assumes: h11's `headers` are `raw_items()` with lower-cased names
         for mo in mops:
             if mo.get("k") == "request":
@@ -517,7 +544,7 @@ def check_h2conn(ctx: Ctx, sessions: List[dict]) -> None:
 def run(ctx: Ctx) -> None:
     rng = ctx.rng
     cases = []
-    for i in range(ctx.budget(300, 15000)):
+    for i in range(ctx.budget(500, 15000)):
         n = rng.choice([1, 1, 2, 3])
         opts = {"big": rng.random() < 0.3, "weights": [6, 5, 5, 1, 1, 1, 1, 0, 0, 0, 0]}
         reqs = [HS.gen_request(rng, j, opts) for j in range(n)]
@@ -548,7 +575,7 @@ def run(ctx: Ctx) -> None:
                                            "body": "u" * n, "chunks": None}]})
     check_e2e(ctx, corpus_e2e + sessions, all_two_way=False)
     check_e2e(ctx, shorts, all_two_way=True)
-    check_h2conn(ctx, h2conn_corpus() + [gen_h2conn(ctx) for _ in range(ctx.budget(12, 400))])
+    check_h2conn(ctx, h2conn_corpus() + [gen_h2conn(ctx) for _ in range(ctx.budget(30, 400))])
 
 
 def replay(ctx: Ctx, case: dict) -> None:
